@@ -150,6 +150,18 @@ ALL_SLOT_CLAUSES = [
     'select * from int1.t1 join int2.t2 on {E}', 'select * from int1.t1 join int1.t2 on {E} where {E}',
     'update int1.t set a = {E} where c = ?', 'delete from int1.t where {E}',
     'insert into int1.t (a, b) values ({E}, ?), (?, {E})', 'select a from int1.t where b in (select c from int2.t2 where {E}) and {E}',
+    'update int1.t on a, b from (select * from int2.t2 where {E})', 'update int1.t set a = ? from (select * from int2.t2 where {E}) as s where s.a = ?',
+    'create table int1.t9 (select a from int2.t2 where {E})', 'insert into int1.t (a) select a from int2.t2 where {E}',
+]
+# sizes beyond a handful: long VALUES lists, long IN lists, many targets (a fast path may start at a threshold)
+BIG_STATEMENTS = [
+    'insert into int1.t (a, b) values ' + ', '.join(['(?, ?)'] * 130),
+    'insert into int1.t (a, b, c) values ' + ', '.join(['(?, 1, ?)'] * 70),
+    'select a from int1.t where b in (' + ', '.join(['?'] * 150) + ') and c = ?',
+    'select a from int1.t where b in (' + ', '.join(['1'] * 70 + ['?'] + ['2'] * 70 + ['?']) + ') and c = ?',
+    'select ' + ', '.join(['?'] * 120) + ' from int1.t where c = ?',
+    'select a from int1.t where ' + ' and '.join('c%d = ?' % i for i in range(50)),
+    'update int1.t set ' + ', '.join('c%d = 1' % i for i in range(80)) + ' where a = ? and b = ?',
 ]
 
 
@@ -293,7 +305,7 @@ def run(ctx):
             gen.append(sql)
             n_all += 1
     ctx.cov['all_slot_statements'] = n_all
-    mc = multi_clause_statements()
+    mc = multi_clause_statements() + BIG_STATEMENTS
     gen += mc
     ctx.cov['multi_clause_statements'] = len(mc)
     if n_all < len(ALL_SLOT_EXPRS) * 3:
@@ -371,7 +383,7 @@ def run(ctx):
     # ---- hand-built spellings of the trees (tuples instead of lists, one list object used for several rows)
     hb_sql = [q for q in STATEMENTS if not order_bad.get(q)] + [
         'insert into int1.t (a, b) values (?, ?), (?, ?), (?, ?)', 'insert into int1.t (a) values (?), (?)',
-        'select a from int1.t where b in (?, ?, ?) group by a, c having count(*) > ? order by a, c']
+        'select a from int1.t where b in (?, ?, ?) group by a, c having count(*) > ? order by a, c'] + BIG_STATEMENTS[:4]
     n_hb = 0
     for sql_, rs in zip(hb_sql, pmap(_handbuilt, hb_sql, chunksize=4)):
         for name, cnt, st, got, want in rs:
